@@ -76,22 +76,22 @@ func uintMax(k reflect.Kind) uint64 {
 }
 
 // dynamic types an interface{} value may hold
-var dynKinds = []string{"nil", "bool", "string", "int", "int8", "int64", "uint8", "uint64", "float32", "float64", "slice_iface", "map_iface", "slice_int", "map_string", "struct", "ptr_int", "slice_string", "bytes"}
+var dynKinds = []string{"nil", "bool", "string", "int", "int8", "int64", "uint8", "uint64", "float32", "float64", "slice_iface", "map_iface", "slice_int", "map_string", "struct", "ptr_int", "slice_string", "bytes", "scalar", "slice_scalar", "map_scalar", "gen_struct"}
 
 // dynamic pool types (fold side): implemented folders — incl. named containers
 // of builtin elements, which the library also knows a conversion fast path for —
 // the registered folder and plain named containers
-var dynPool = []string{"FolderObj", "FolderPtr", "FolderScalar", "RegT", "FTags", "FCounts", "FAnyMap", "FAnyList", "NMapInt", "NMapAny", "NSliceStr", "NSliceAny", "NBytes", "ZeroVal"}
+var dynPool = []string{"FolderObj", "FolderPtr", "FolderScalar", "RegT", "FTags", "FCounts", "FAnyMap", "FAnyList", "NMapInt", "NMapAny", "NSliceStr", "NSliceAny", "NBytes", "ZeroVal", "NArr3", "NArrStr", "NSliceN", "NMapN", "NUint64", "NInt16"}
 
 // dynamic types that fold to an object (what an inlined interface must hold)
-var dynObjKinds = []string{"map_iface", "map_string", "struct", "map_iface", "struct", "pool:FolderObj", "pool:FCounts", "pool:NMapAny", "ptr_struct"}
+var dynObjKinds = []string{"map_iface", "map_string", "struct", "map_scalar", "gen_struct", "gen_struct", "pool:FolderObj", "pool:FCounts", "pool:NMapAny", "ptr_struct"}
 
 func (g *valGen) dynType(t *rapid.T, depth int) *TypeDesc {
 	k := rapid.SampledFrom(dynKinds).Draw(t, "dyn")
 	if g.cfg.DynFolders && rapid.IntRange(0, 3).Draw(t, "dynp") == 0 {
 		k = "pool:" + rapid.SampledFrom(dynPool).Draw(t, "dynpool")
 	}
-	return g.dynTypeOf(k, depth)
+	return g.dynTypeOf(t, k, depth)
 }
 
 func (g *valGen) dynObjType(t *rapid.T, depth int) *TypeDesc {
@@ -102,12 +102,31 @@ func (g *valGen) dynObjType(t *rapid.T, depth int) *TypeDesc {
 	if g.budget <= 0 || depth > 4 {
 		k = "map_string"
 	}
-	return g.dynTypeOf(k, 0)
+	return g.dynTypeOf(t, k, 0)
 }
 
-func (g *valGen) dynTypeOf(k string, depth int) *TypeDesc {
+func (g *valGen) dynTypeOf(t *rapid.T, k string, depth int) *TypeDesc {
 	if g.budget <= 0 || depth > 4 {
 		k = "int"
+	}
+	switch k {
+	case "scalar":
+		return &TypeDesc{Kind: rapid.SampledFrom(ScalarKinds).Draw(t, "dynsk")}
+	case "slice_scalar":
+		return &TypeDesc{Kind: "slice", Elem: &TypeDesc{Kind: rapid.SampledFrom(ScalarKinds).Draw(t, "dynsk")}}
+	case "map_scalar":
+		return &TypeDesc{Kind: "map", Elem: &TypeDesc{Kind: rapid.SampledFrom(ScalarKinds).Draw(t, "dynsk")}}
+	case "gen_struct":
+		// a generated struct type (fields of every kind, tags) as dynamic value
+		tg := &typeGen{cfg: TypeCfg{MaxDepth: 2, Tags: true, InlineOnlyStruct: true, NoIface: depth > 2}, budget: 8}
+		td := tg.structType(t, 0)
+		// always one plain member (an object without members is "empty" once it
+		// has become a map, but not as a struct: omitempty would see two things)
+		td.Fields = append([]FieldDesc{{Name: "G0", Type: TypeDesc{Kind: "int"}}}, td.Fields...)
+		// unique member names: the value is rebuilt as a map, which keeps one
+		// member per name
+		uniqueMemberNames(&td, map[string]bool{}, new(int))
+		return &td
 	}
 	if strings.HasPrefix(k, "pool:") {
 		if strings.HasSuffix(k, "FolderPtr") || strings.HasSuffix(k, "RegT") {
@@ -300,6 +319,49 @@ func (g *valGen) deepNest(t *rapid.T, k int) GoVal {
 		inner.Elems = append(inner.Elems, scalar())
 	}
 	return GoVal{Ptr: &inner, Dyn: &TypeDesc{Kind: "slice", Elem: &TypeDesc{Kind: "iface"}}}
+}
+
+// uniqueMemberNames renames members so that every object the struct type folds
+// to has distinct keys (inlined structs share the namespace of their parent).
+func uniqueMemberNames(td *TypeDesc, seen map[string]bool, n *int) {
+	if td.Kind != "struct" {
+		if td.Elem != nil {
+			uniqueMemberNames(td.Elem, map[string]bool{}, n)
+		}
+		return
+	}
+	for i := range td.Fields {
+		f := &td.Fields[i]
+		if !exported(f.Name) {
+			continue
+		}
+		o := ParseTag(reflect.StructTag(f.Tag).Get("struct"))
+		if o.Omit {
+			continue
+		}
+		if o.Inline {
+			bt := &f.Type
+			for bt.Kind == "ptr" {
+				bt = bt.Elem
+			}
+			if bt.Kind == "struct" {
+				uniqueMemberNames(bt, seen, n)
+			}
+			continue
+		}
+		name := FieldName(reflect.StructField{Name: f.Name}, o)
+		if seen[name] {
+			*n++
+			opts := ""
+			if o.OmitEmpty {
+				opts = ",omitempty"
+			}
+			name = fmt.Sprintf("u%d", *n)
+			f.Tag = `struct:"` + name + opts + `"`
+		}
+		seen[name] = true
+		uniqueMemberNames(&f.Type, map[string]bool{}, n)
+	}
 }
 
 // Materialize builds the described value as an addressable reflect.Value of typ.
